@@ -1399,7 +1399,17 @@ func (n *toDateEval) Eval(env Env) (types.Value, error) {
 	if err != nil {
 		return zeroValue(), err
 	}
-	return types.NewDatetimeFromMillis(lhs.Milliseconds() - (lhs.Milliseconds() % consts.MillisPerDay)), nil
+	// Round towards negative infinity so that dates before the epoch map to the start of their own day.
+	ms := lhs.Milliseconds()
+	rem := ms % consts.MillisPerDay
+	if rem < 0 {
+		rem += consts.MillisPerDay
+	}
+	res, ok := checkedSubI64(types.Long(ms), types.Long(rem))
+	if !ok {
+		return zeroValue(), fmt.Errorf("%w while attempting to compute toDate", errOverflow)
+	}
+	return types.NewDatetimeFromMillis(int64(res)), nil
 }
 
 type toTimeEval struct {
@@ -1415,7 +1425,11 @@ func (n *toTimeEval) Eval(env Env) (types.Value, error) {
 	if err != nil {
 		return zeroValue(), err
 	}
-	return types.NewDurationFromMillis(lhs.Milliseconds() % consts.MillisPerDay), nil
+	rem := lhs.Milliseconds() % consts.MillisPerDay
+	if rem < 0 {
+		rem += consts.MillisPerDay
+	}
+	return types.NewDurationFromMillis(rem), nil
 }
 
 type toMillisecondsEval struct {
